@@ -7,7 +7,7 @@
  *                  the reply then ends with u8 st[8][10] (stack order), u16 swd, u8 ftw
  *         flags&2: the hot bytes live at LOW_ADDR+HOT_OFF (reachable with 16-bit addressing) instead of DATA_ADDR+HOT_OFF
  * stdout: records  { u32 status (0 = stepped, else signal number, 0xffff = tracer failure);
- *                    u32 regs[8]; u32 eip; u32 eflags; u8 hot[HOT]; [if flags&1: mm, xmm] }
+ *                    u32 regs[8]; u32 eip; u32 eflags; u32 cs; u8 hot[HOT]; [if flags&1: mm, xmm] }
  */
 #define _GNU_SOURCE
 #include <stdio.h>
@@ -117,11 +117,11 @@ int main(int argc, char **argv) {
         }
         memset(&r, 0, sizeof r);
         if (status != 0xfffe) ptrace(PTRACE_GETREGS, child, 0, &r);
-        uint32_t out[11];
+        uint32_t out[12];
         out[0] = status;
         out[1] = r.rax; out[2] = r.rcx; out[3] = r.rdx; out[4] = r.rbx;
         out[5] = r.rsp; out[6] = r.rbp; out[7] = r.rsi; out[8] = r.rdi;
-        out[9] = r.rip; out[10] = r.eflags;
+        out[9] = r.rip; out[10] = r.eflags; out[11] = r.cs;
         wr(out, sizeof out);
         if (status == 0xfffe || !get_mem(hotbase, hot, HOT)) memset(hot, 0, HOT);
         wr(hot, HOT);
